@@ -175,11 +175,11 @@ func keyOf(k int) qdb.KeyType { return qdb.KeyType(0x1122334400000000 + uint64(k
 type version struct {
 	Val    []byte
 	Absent bool
-	At     int // len(simos.Log) when the write was invoked
+	At     int // simos.LogLen() when the write was invoked
 }
 
 type floorT struct {
-	At  int   // len(simos.Log) when the floor was established
+	At  int   // simos.LogLen() when the floor was established
 	Idx []int // per key: index into versions
 }
 
@@ -190,7 +190,6 @@ type model struct {
 	flDirty  []bool // flags changed since the record was last written by a put
 	versions [][]version
 	floors   []floorT
-	mu       simsync.Mutex
 }
 
 func newModel(n int) *model {
@@ -202,14 +201,39 @@ func newModel(n int) *model {
 	return m
 }
 
-func (m *model) write(k int, v []byte, present bool) {
-	m.mu.Lock()
-	defer m.mu.Unlock()
-	m.versions[k] = append(m.versions[k], version{Val: v, Absent: !present, At: len(simos.Log)})
+// clientLog is private to one simulated client goroutine during a phase and is
+// merged into the shared model at the next quiescent point (the harness itself
+// must not add happens-before edges between clients: they would hide races
+// from the race-detector arm).
+type clientLog struct {
+	hist   []porcupine.Operation
+	writes []pendingWrite
+}
+
+type pendingWrite struct {
+	k     int
+	v     version
+	stamp uint64
+}
+
+func (cl *clientLog) write(k int, v []byte, present bool) {
+	cl.writes = append(cl.writes, pendingWrite{k, version{Val: v, Absent: !present, At: simos.LogLen()}, simrt.Stamp()})
+}
+
+func (r *run) merge(cls []*clientLog) {
+	var ws []pendingWrite
+	for _, cl := range cls {
+		ws = append(ws, cl.writes...)
+		r.hist = append(r.hist, cl.hist...)
+	}
+	sort.Slice(ws, func(i, j int) bool { return ws[i].stamp < ws[j].stamp })
+	for _, w := range ws {
+		r.m.versions[w.k] = append(r.m.versions[w.k], w.v)
+	}
 }
 
 func (m *model) floor() {
-	f := floorT{At: len(simos.Log), Idx: make([]int, len(m.val))}
+	f := floorT{At: simos.LogLen(), Idx: make([]int, len(m.val))}
 	for k := range m.val {
 		// the latest version equal to the current model value
 		vs := m.versions[k]
@@ -256,7 +280,6 @@ type run struct {
 	db    *qdb.DB
 	m     *model
 	hist  []porcupine.Operation
-	hmu   simsync.Mutex
 	seqOK bool // sequential phase: exact model checks
 }
 
@@ -302,14 +325,12 @@ func waitQuiet(db *qdb.DB) {
 	db.Mutex.Unlock()
 }
 
-func (r *run) record(c int, in regIn, o regOut, call, ret uint64) {
-	r.hmu.Lock()
-	r.hist = append(r.hist, porcupine.Operation{ClientId: c, Input: in, Call: int64(call), Output: o, Return: int64(ret)})
-	r.hmu.Unlock()
+func (cl *clientLog) record(c int, in regIn, o regOut, call, ret uint64) {
+	cl.hist = append(cl.hist, porcupine.Operation{ClientId: c, Input: in, Call: int64(call), Output: o, Return: int64(ret)})
 }
 
 // doOp executes one non-barrier operation on behalf of client c.
-func (r *run) doOp(o *Op, seq bool) {
+func (r *run) doOp(o *Op, seq bool, cl *clientLog) {
 	db, m := r.db, r.m
 	k := o.K
 	if k >= r.cfg.Keys {
@@ -319,7 +340,7 @@ func (r *run) doOp(o *Op, seq bool) {
 	switch o.Op {
 	case "put", "putext":
 		v := value(o.ID, o.Len)
-		m.write(k, v, true)
+		cl.write(k, v, true)
 		call := simrt.Stamp()
 		if o.Op == "put" {
 			db.Put(key, append(make([]byte, 0, len(v)), v...))
@@ -327,7 +348,7 @@ func (r *run) doOp(o *Op, seq bool) {
 			db.PutExt(key, append(make([]byte, 0, len(v)), v...), o.Fl)
 		}
 		ret := simrt.Stamp()
-		r.record(o.C, regIn{"put", k, string(v)}, regOut{}, call, ret)
+		cl.record(o.C, regIn{"put", k, string(v)}, regOut{}, call, ret)
 		if seq {
 			m.val[k], m.present[k], m.flDirty[k] = v, true, false
 			if o.Op == "put" {
@@ -337,11 +358,11 @@ func (r *run) doOp(o *Op, seq bool) {
 			}
 		}
 	case "del":
-		m.write(k, nil, false)
+		cl.write(k, nil, false)
 		call := simrt.Stamp()
 		db.Del(key)
 		ret := simrt.Stamp()
-		r.record(o.C, regIn{"del", k, ""}, regOut{}, call, ret)
+		cl.record(o.C, regIn{"del", k, ""}, regOut{}, call, ret)
 		if seq {
 			m.val[k], m.present[k], m.flags[k], m.flDirty[k] = nil, false, 0, false
 		}
@@ -350,7 +371,7 @@ func (r *run) doOp(o *Op, seq bool) {
 		got := db.Get(key)
 		ret := simrt.Stamp()
 		cp := append([]byte(nil), got...)
-		r.record(o.C, regIn{"get", k, ""}, regOut{string(cp), got != nil}, call, ret)
+		cl.record(o.C, regIn{"get", k, ""}, regOut{string(cp), got != nil}, call, ret)
 		if seq {
 			if (got != nil) != m.present[k] || !bytes.Equal(got, m.val[k]) {
 				r.viol("live.get", "op#%d Get(key %d) = %s, map model holds %s", o.ID, k, short(got), short(m.val[k]))
@@ -451,11 +472,11 @@ func (r *run) doOp(o *Op, seq bool) {
 		for _, kk := range del {
 			for i := 0; i < r.cfg.Keys; i++ {
 				if keyOf(i) == kk {
-					m.write(i, nil, false)
+					cl.write(i, nil, false)
 					call := simrt.Stamp()
 					db.Del(kk)
 					ret := simrt.Stamp()
-					r.record(o.C, regIn{"del", i, ""}, regOut{}, call, ret)
+					cl.record(o.C, regIn{"del", i, ""}, regOut{}, call, ret)
 					if seq {
 						m.val[i], m.present[i], m.flags[i], m.flDirty[i] = nil, false, 0, false
 					}
@@ -510,6 +531,18 @@ func (r *run) adopt(phaseOps []*Op) {
 			r.m.val[k] = append(make([]byte, 0, len(got)), got...)
 		}
 		r.m.flDirty[k] = true
+	}
+	// flags were changed concurrently: learn the observable part (browsability)
+	vis := map[qdb.KeyType]bool{}
+	r.db.Browse(func(k qdb.KeyType, v []byte) uint32 { vis[k] = true; return 0 })
+	for k := 0; k < r.cfg.Keys; k++ {
+		if r.m.present[k] {
+			if vis[keyOf(k)] {
+				r.m.flags[k] &^= qdb.NO_BROWSE
+			} else {
+				r.m.flags[k] |= qdb.NO_BROWSE
+			}
+		}
 	}
 }
 
@@ -607,8 +640,11 @@ func (H) Run(t *testing.T, c *hx.Case) *hx.Outcome {
 					clients[o.C] = append(clients[o.C], o)
 				}
 				if len(clients) <= 1 {
+					cl := &clientLog{}
 					for _, o := range phase {
-						r.doOp(o, true)
+						r.doOp(o, true, cl)
+						r.merge([]*clientLog{cl})
+						*cl = clientLog{}
 					}
 				} else {
 					out.Probe("concurrent_clients", 1)
@@ -618,17 +654,21 @@ func (H) Run(t *testing.T, c *hx.Case) *hx.Outcome {
 						ids = append(ids, cid)
 					}
 					sort.Ints(ids)
+					var cls []*clientLog
 					for _, cid := range ids {
 						cops := clients[cid]
+						cl := &clientLog{}
+						cls = append(cls, cl)
 						wg.Add(1)
 						simrt.Go(func() {
 							defer wg.Done()
 							for _, o := range cops {
-								r.doOp(o, false)
+								r.doOp(o, false, cl)
 							}
 						})
 					}
 					wg.Wait()
+					r.merge(cls)
 					waitQuiet(r.db)
 					r.adopt(phase)
 				}
@@ -648,13 +688,33 @@ func (H) Run(t *testing.T, c *hx.Case) *hx.Outcome {
 		out.Probe("reopen_clean", 1)
 	})
 	out.Evals = 1
+	{
+		var ol []string
+		for i, o := range ops {
+			if i >= 40 {
+				ol = append(ol, fmt.Sprintf("... %d more", len(ops)-i))
+				break
+			}
+			s := fmt.Sprintf("c%d %s", o.C, o.Op)
+			switch o.Op {
+			case "put", "putext":
+				s += fmt.Sprintf(" k%d len=%d fl=%d", o.K%cfg.Keys, o.Len, o.Fl)
+			case "del", "get", "flags":
+				s += fmt.Sprintf(" k%d fl=%d", o.K%cfg.Keys, o.Fl)
+			case "defrag":
+				s += fmt.Sprintf(" force=%v", o.F)
+			}
+			ol = append(ol, s)
+		}
+		out.Sample = map[string]any{"cfg": cfg, "history": ol, "fs_effects": simos.LogLen()}
+	}
 	if !out.Absorb(prop, "history", &res) {
 		return out
 	}
 	if os.Getenv("VSIM_DEBUG") != "" {
 		fmt.Fprintln(os.Stderr, "DBG after history ctr", runtime.VerifCtr(), "steps", res.Steps, "hash", res.TraceHash)
 	}
-	live := append([]simos.Effect(nil), simos.Log...)
+	live := simos.Snapshot()
 	out.StateHash = fmt.Sprintf("%x", modelHash(r.m))
 	// counters of what happened
 	for _, e := range live {
@@ -696,7 +756,7 @@ func (H) Run(t *testing.T, c *hx.Case) *hx.Outcome {
 
 func isBarrier(op string) bool {
 	switch op {
-	case "sync", "nosync", "defrag", "flush", "reopen", "barrier":
+	case "sync", "nosync", "defrag", "flush", "reopen", "barrier", "peersbrowse":
 		return true
 	}
 	return false
@@ -716,7 +776,7 @@ func (r *run) barrier(o *Op) {
 	case "nosync":
 		db.NoSync()
 	case "defrag":
-		before := len(simos.Log)
+		before := simos.LogLen()
 		did := db.Defrag(o.F)
 		waitQuiet(db)
 		if did {
@@ -735,6 +795,11 @@ func (r *run) barrier(o *Op) {
 		r.db = r.open(r.dir + "/db")
 		r.checkReopened(r.db, fmt.Sprintf("op#%d close + reopen", o.ID))
 		r.out.Probe("reopen_clean", 1)
+	case "peersbrowse":
+		cl := &clientLog{}
+		r.doOp(o, true, cl)
+		r.merge([]*clientLog{cl})
+		waitQuiet(db)
 	case "barrier":
 	}
 }
@@ -810,22 +875,38 @@ func (r *run) crashImages(root string, log []simos.Effect, seed uint64) {
 	rng := hx.NewRng(seed ^ 0x7041)
 	// which goroutine-phase an effect belongs to (probe names)
 	for _, k := range points {
-		torn := -1
-		if r.cfg.Torn && log[k].Kind == simos.KWrite && len(log[k].Data) > 1 && rng.Chance(0.5) {
-			torn = 1 + rng.Intn(len(log[k].Data)-1)
-		}
-		if !r.recoverImage(root, log, k, torn) {
+		if !r.recoverImage(root, log, k, -1) {
 			return
-		}
-		if torn >= 0 {
-			// and also the untorn image
-			if !r.recoverImage(root, log, k, -1) {
-				return
-			}
 		}
 	}
 	// the image after the last effect (process dies after everything)
-	r.recoverImage(root, log, len(log), -1)
+	if !r.recoverImage(root, log, len(log), -1) {
+		return
+	}
+	// torn (short) last writes are outside the wording of C19 ("between any two of the
+	// store's file operations"): explored, counted, never reported as violations
+	if r.cfg.Torn {
+		n := 0
+		for _, k := range points {
+			if n >= 2 {
+				break
+			}
+			if log[k].Kind == simos.KWrite && len(log[k].Data) > 1 && rng.Chance(0.3) {
+				n++
+				nv := len(r.out.Violations)
+				ok := r.recoverImage(root, log, k, 1+rng.Intn(len(log[k].Data)-1))
+				if len(r.out.Violations) > nv {
+					for _, v := range r.out.Violations[nv:] {
+						r.out.Probe("torn_write_anomaly:"+v.Class, 1)
+					}
+					r.out.Violations = r.out.Violations[:nv]
+				}
+				if !ok {
+					return
+				}
+			}
+		}
+	}
 }
 
 // allowed returns the versions key k may hold after a crash that preserved effects [0,upto).
